@@ -262,8 +262,10 @@ class Report:
 def finding_matches(finding, sig):
     """A finding lists `match`: a dict; every key must be present in the signature with an equal value
     (the signature may carry further keys). Values that are lists in the finding mean 'one of'."""
-    if sig in finding.get("instances", ()):
-        return True
+    for inst in finding.get("instances", ()):
+        # an instance lists the keys that identify it; the observed signature may carry further keys
+        if isinstance(inst, dict) and isinstance(sig, dict) and all(k in sig and sig[k] == v for k, v in inst.items()):
+            return True
     m = finding.get("match")
     if not isinstance(m, dict) or not isinstance(sig, dict):
         return False
